@@ -472,7 +472,8 @@ pub fn vary_transport(rng: &mut Rng, case: &mut Case) {
         }
     }
     // every eighth case travels over a TLS upgrade (its own handshake; not under Miri: native crypto)
-    case.over_tls = !cfg!(miri) && r.chance(1, 8) && case.tls.is_none() && case.fault.err_at.is_none() && case.fault.eof_after.is_none();
+    let tls_one_in = if THOROUGH.load(std::sync::atomic::Ordering::Relaxed) { 100 } else { 8 };
+    case.over_tls = !cfg!(miri) && r.chance(1, tls_one_in) && case.tls.is_none() && case.fault.err_at.is_none() && case.fault.eof_after.is_none();
     if r.chance(1, 3) {
         let (input, _) = case.input();
         if input.len() < 100_000 {
